@@ -131,6 +131,20 @@ CHECKS = {
              "each key sent exactly once to its server and nowhere else, single- and multi-key operations agree, what was written is found.",
         technique="TLA+ routing model model-checked against the contract monitor; spec-to-code replay with forced placement; TLC trace validation of per-server logs",
         design_ref="4 C12", note=TRUST + " Placement itself is C11's subject; failover is C13's."),
+    "C13": dict(
+        category="model_checking",
+        text="TLC explores the as-coded failover model spec/HashFailover.tla (the timed per-server state machine spread over _get_client/_retry_dead, "
+             "_safely_run_func, _mark_failed_server, remove_server; saturating ages make it finite) against the contract monitor "
+             "spec/FailoverRule.tla -- at most two consecutive-failure contacts per retry_timeout window and retry_attempts+2 per dead_timeout "
+             "window, no eviction by a single failure when retries are configured, only a failing server is taken out, every contact goes to the "
+             "placement of the rotation, no server that did not fail is bypassed, recovery within two dead_timeouts of traffic, only the failing "
+             "server's own error or 'all servers down' escapes, nothing escapes with ignore_exc -- for every history of calls, ticks and health "
+             "changes (OSError-class / MemcacheError-class): quick to depth 12 for retry_attempts 0/1/2 x ignore_exc x two timeout pairs; thorough "
+             "the complete reachable state space (3.9M states for RA=1). Exported behaviours are replayed into the real HashClient (scripted "
+             "client_class keyed by address, hasher= seam, virtual clock, six operations rotating) and, with seeded random histories of length "
+             "60..120 over 2-3 servers and six timeout pairs, validated by TLC against the contract.",
+        technique="TLA+ timed failover model model-checked against the contract monitor; spec-to-code replay; TLC trace validation",
+        design_ref="4 C13", note=TRUST + " 'Failing' = OSError; unit ticks; broadcast operations excluded."),
     "C14": dict(
         category="model_checking",
         text="spec/Murmur3.tla is MurmurHash3_x86_32 written in TLA+ over <<hi16, lo16>> words (8x16-bit partial products), pinned by 22 published "
